@@ -2,19 +2,25 @@
 """Prints the markdown table of independently seeded changes (DESIGN §10.5) from seeded/*/meta.json."""
 import json, glob, os, re
 rows=[]
-for d in sorted(glob.glob(os.path.join(os.path.dirname(__file__),'..','seeded','*'))):
+for d in sorted(glob.glob(os.path.join(os.path.dirname(os.path.abspath(__file__)),'..','seeded','*'))):
     try: m=json.load(open(os.path.join(d,'meta.json')))
     except Exception: continue
     readme=''
     p=os.path.join(d,'AUTHOR_README.md')
     if os.path.exists(p): readme=open(p).read()
-    # first non-heading, non-empty line of the author's README as the one-line description
     desc=''
     for l in readme.splitlines():
         l=l.strip()
         if l and not l.startswith('#') and len(l)>30:
             desc=re.sub(r'[|`*]','',l)[:170]; break
-    first='missed, then caught after strengthening' if m.get('history','').startswith('MISSED') else 'caught'
+    if m.get('history','').startswith('MISSED'):
+        first='missed, then caught after strengthening'
+    elif m.get('check_quick_verdict')=='CAUGHT':
+        first='caught'
+    else:
+        first='MISSED (not yet addressed)'
     rows.append(f"| {os.path.basename(d)} | {desc} | {first} | {m.get('violation_keys','')[:90]} |")
+n=len(rows); missed=sum("missed, then" in r for r in rows); open_=sum("MISSED (not" in r for r in rows)
+print(f"Totals: {n} seeds; {n-missed-open_} caught by the quick tier as it stood, {missed} missed and caught after strengthening, {open_} missed and not yet addressed.\n")
 print("| seed | change (author's words) | quick tier | reported keys |\n|---|---|---|---|")
 print("\n".join(rows))
